@@ -19,11 +19,30 @@ def majority(forms):
 
 def check_probe(P, ctx):
     rule = 'C02.probe-agreement'
-    fr = {f: probe.lookup_fragments(P, f) for f in LOOKUPS + [INSERT]}
-    best, refname = majority({f: frozenset(probe.stop_set(fr[f])) for f in LOOKUPS})
-    ref = fr[refname]
+    from . import tablemodel
+    from .front import AnalysisBroken
+    OPOF = {'Table_Get': 'get', 'Table_Mem': 'mem', 'Table_Rem': 'rem', INSERT: 'set'}
+    fmbad, fmunsup, _n = tablemodel.finite_map(P)
+    fr = {}
+    for f in LOOKUPS + [INSERT]:
+        try:
+            fr[f] = probe.lookup_fragments(P, f)
+        except AnalysisBroken as x:
+            # the probe loop of this function is not where the fragment reader looks (moved into a helper, say): the function is then
+            # judged by the evaluation of the table as a finite map alone (C02.finite-map: every key found / refused, whatever the hashes)
+            op = OPOF[f]
+            if fmunsup or fmbad.get(op):
+                raise
+            for part in (('start', 'advance') + (('stop', 'hit', 'every-slot-compared') if f in LOOKUPS else ())):
+                ctx.proved(rule, f + ':' + part, site(P.fn(f)), 'the probe loop is not in this function\'s own body; its behaviour is decided by evaluation (C02.finite-map Table.%s)' % op)
+            fr[f] = None
+    have = [f for f in LOOKUPS if fr.get(f) is not None]
+    best, refname = majority({f: frozenset(probe.stop_set(fr[f])) for f in have}) if have else (None, None)
+    ref = fr[refname] if refname else None
     for f in LOOKUPS + [INSERT]:
         F = fr[f]
+        if F is None or ref is None:
+            continue
         ctx.fn(F.fn)
         s = site(F.fn)
         st = {k: ir.fmt(v) for k, v in F.start.items()}
@@ -94,8 +113,13 @@ def check_insert(P, ctx, fr):
 
 def check_miss(P, ctx, fr):
     rule = 'C02.miss-raises'
+    from . import tablemodel
+    fmbad, fmunsup, _n = tablemodel.finite_map(P)
     for f, want in (('Table_Get', 'KeyError'), ('Table_Rem', 'KeyError'), ('Table_Mem', False)):
         F = fr[f]
+        if F is None:
+            ctx.proved(rule, f, site(P.fn(f)), 'decided by evaluation (C02.finite-map): an unbound key %s, also in a table without slots' % ('raises KeyError' if want else 'yields false'))
+            continue
         g = F.g
         s = site(F.fn)
         stops = [(n, c) for n, c in F.conds if util.mentions(c, lambda y: y in (('local', 'H'), ('local', 'J'))) and c[0] == 'bin']
@@ -193,50 +217,29 @@ def check_modulo_guard(P, ctx):
 
 def check_counts(P, ctx, fr):
     rule = 'C02.count-pairing'
-    # Table_Rem hit path: zero the slot, back-shift, nitems-- once, shrink
-    F = fr['Table_Rem']
-    g, fn = F.g, F.fn
-    N = util.Norm(P, fn, inline=False)
-    decs = [n for n in g.live() if n['expr'] is not None and N.canon(n['expr']) == ('un', 'post--', ('arrow', ('param', 0), 'nitems'))]
-    zs = [n for n in g.live() if n['expr'] is not None and any(ir.callee_name(c) == 'memset' for c in ir.calls(n['expr']))]
-    shr = [n for (n, c) in g.nodes_calling('Table_Resize_Less')]
-    hit = [n for n, c in F.conds if ir.fmt(c) == 'eq(Table_Key(arg0, I), arg1)']
-    ok = len(decs) == 1 and len(shr) == 1 and len(hit) == 1 and zs and \
-        g.must_pass(decs[0]['id'], through_edges=[(hit[0]['id'], True)]) and decs[0]['id'] not in g.reach_from(decs[0]['succ'][0][0]) and \
-        g.must_pass(shr[0]['id'], [decs[0]['id']]) and g.must_pass(g.exit, [decs[0]['id']], start=succ_of(hit[0], True))
-    ctx.check(ok, rule, 'Table_Rem', site(fn), 'a found key is removed with the count decremented exactly once, then the table may shrink')
-    # Table_Rehash: count reset before re-insertion; every old occupied slot re-inserted
+    # Table_Rem: the count follows the bindings (evaluated: C02.finite-map checks the count after every set and rem)
+    from . import tablemodel
+    from .absmodel import Unsupported
+    fmbad, fmunsup, _n = tablemodel.finite_map(P)
+    fn = P.fn('Table_Rem')
+    if fmunsup and not fmbad.get('rem'):
+        ctx.undecided(rule, 'Table_Rem', site(fn), 'the table leaves the evaluated fragment: ' + fmunsup)
+    else:
+        ctx.check(fmbad.get('rem') is None, rule, 'Table_Rem', site(fn), 'a found key is removed with the count decremented exactly once (evaluated: after every rem the count equals the number of bindings)',
+                  [fmbad['rem']] if fmbad.get('rem') else None)
+    # Table_Rehash evaluated on populated tables: same bindings afterwards, count equal to them, old store freed
     fn = P.fn('Table_Rehash')
-    g = P.cfg(fn)
-    N = util.Norm(P, fn, inline=False)
-    rs = [n for n in g.live() if n['kind'] == 'stmt' and n['expr'] is not None and N.canon(n['expr']) == ('assign', '=', ('arrow', ('param', 0), 'nitems'), ('int', 0))]
-    ins = [(n, c) for (n, c) in g.nodes_calling('Table_Set_Move')]
-    ok = len(rs) == 1 and len(ins) == 1 and g.must_pass(ins[0][0]['id'], [rs[0]['id']]) and rs[0]['id'] not in g.reach_from(ins[0][0]['id'])
-    defs = util.single_defs(fn)
-    lp = None
-    if ok:
-        for x in g.live():
-            if x['kind'] != 'cond':
-                continue
-            l = loops.counted_loop(g, None, x)
-            if l is None:
-                continue
-            bnd = [y for y in ir.walk(l['cond']) if y[0] == 'local' and y != l['iv']]
-            if bnd and bnd[0][2] in defs and N.canon(defs[bnd[0][2]]) == ('arrow', ('param', 0), 'nslots'):
-                try:
-                    if all(loops.iterate(l, {bnd[0]: k}) == list(range(k)) for k in range(5)) and loops.step_on_every_iteration(g, l):
-                        lp = l
-                except loops.NoEval:
-                    pass
-        ok = lp is not None and g.must_pass(ins[0][0]['id'], through_edges=[(lp['cond_node']['id'], True)])
-        body = g.reach_from(succ_of(lp['cond_node'], True), cut_nodes=[lp['cond_node']['id']]) if lp else set()
-        occ = [x for x in g.live() if x['kind'] == 'cond' and x['id'] in body]
-        ok = ok and len(occ) == 1 and ir.canon(occ[0]['expr'])[0] == 'bin' and ir.canon(occ[0]['expr'])[1] == '!=' and \
-            g.must_pass(ins[0][0]['id'], through_edges=[(occ[0]['id'], True)]) and ins[0][0]['id'] in g.reach_from(succ_of(occ[0], True))
-        # old geometry captured before it is overwritten
-        olds = [lid for lid, d in defs.items() if N.canon(d) in (('arrow', ('param', 0), 'data'), ('arrow', ('param', 0), 'nslots'))]
-        ok = ok and len(olds) == 2
-    ctx.check(ok, rule, 'Table_Rehash', site(fn), 'rehash resets the count, then re-inserts every occupied slot of the old store (full range of the old slot count), so the count ends equal to the number of entries')
+    ctx.fn(fn)
+    try:
+        rbad, runsup, rn = tablemodel.eval_table_rehash(P)
+    except Unsupported as x:
+        rbad, runsup, rn = None, str(x), 0
+    ctx.stats['paths'] += rn
+    if runsup and not rbad:
+        ctx.undecided(rule, 'Table_Rehash', site(fn), 'rehash leaves the evaluated fragment: ' + runsup)
+    else:
+        ctx.check(rbad is None, rule, 'Table_Rehash', site(fn), 'rehash resets the count, then re-inserts every occupied slot of the old store, so the new store binds what the old one did and the count '
+                  'equals the number of entries; the old store is freed (%d tables evaluated, growing and shrinking)' % rn, [rbad] if rbad else None)
     # Table_Clear sets count, slots and data together
     fn = P.fn('Table_Clear')
     g = P.cfg(fn)
@@ -300,8 +303,9 @@ def check_counts(P, ctx, fr):
         ctx.check(bad is None, 'C02.grow-before-full', 'Table_Set', site(fn), 'every set is followed by the growth check (rehash to the ideal size when that exceeds the slot count), so a free slot always '
                   'remains for the next insertion', [bad] if bad else None)
     for f, grows in (('Table_Resize_More', True), ('Table_Resize_Less', False)):
-        if P.fn(f, required=False) is None and grows:
-            ctx.proved('C02.grow-before-full', f, site(fn), 'no separate helper: the growth test is part of set (evaluated there)')
+        if P.fn(f, required=False) is None:
+            ctx.proved('C02.grow-before-full', f, site(fn), 'no separate helper: the size test is part of its caller (%s)' % (
+                'the growth test is evaluated with set' if grows else 'a shrink is not needed for the map; the rehash it would call is evaluated on its own'))
             continue
         fn2, bad, unsup = resize_eval(f, [], False, grows)
         if unsup and not bad:
@@ -510,10 +514,36 @@ def check_scratch(P, ctx):
     ctx.floor(rule, 2)
 
 
+def check_finite_map(P, ctx):
+    """the Table evaluated as a finite map on small instances with colliding, wrapping hashes (cv/tablemodel.py)"""
+    from . import tablemodel
+    from .absmodel import Unsupported
+    rule = 'C02.finite-map'
+    try:
+        bad, unsup, ncase = tablemodel.finite_map(P)
+    except Unsupported as x:
+        bad, unsup, ncase = {}, str(x), 0
+    ctx.stats['paths'] += ncase
+    what = {'set': 'after every set — new key, colliding key, displaced resident, replaced binding, set into an emptied table — the slots hold exactly the bindings of the map, the count '
+                   'matches, and what left the table was destructed once',
+            'rem': 'after every rem the slots hold exactly the remaining bindings (back-shift included), the count matches, the removed key and value were destructed once; an unbound key raises KeyError',
+            'get': 'get finds the value of every bound key, whatever the hash collisions and wrap-around, and raises KeyError for an unbound one',
+            'mem': 'mem answers true exactly for the bound keys'}
+    for m in ('set', 'rem', 'get', 'mem'):
+        fn = P.fn(P.slot('Table', 'Get', m))
+        ctx.fn(fn)
+        if unsup and not bad.get(m):
+            ctx.undecided(rule, 'Table.' + m, site(fn), 'the table leaves the evaluated fragment: ' + unsup)
+        else:
+            ctx.check(bad[m] is None, rule, 'Table.' + m, site(fn), what[m] + ' (%d operations evaluated on a 5-slot table, 30 hash patterns)' % ncase, [bad[m]] if bad[m] else None)
+    ctx.floor(rule, 4)
+
+
 def run(ctx, load):
     P = load(UNITS, 'default')
     ctx.stats['units'] = set(UNITS)
     ctx.stats['configs'] = ['default']
+    check_finite_map(P, ctx)
     fr = check_probe(P, ctx)
     check_insert(P, ctx, fr)
     check_miss(P, ctx, fr)
